@@ -7,6 +7,9 @@ rnd = sys.argv[3] if len(sys.argv) > 3 else "1"
 wt = f"/tmp/wt-{pid}" if rnd == "1" else f"/tmp/wt-{pid}-r{rnd}"
 outd = f"/tmp/seedout/{pid}" if rnd == "1" else f"/tmp/seedout/{pid}-r{rnd}"
 p = [json.loads(l) for l in open('/verif/properties.jsonl') if json.loads(l)['id'] == pid][0]
+hint = ""
+if rnd not in ("1", "2", "3"):
+    hint = "Ordinary paths and the obvious boundary values were covered in earlier rounds. Prefer changes that only manifest under a rarely used PUBLIC configuration option, builder method, constructor or API entry point of the crates involved (look through the public API of the anchored modules for options the everyday examples never set), or through the INTERACTION of two features (for example a builder option combined with a particular call shape, a second connection, a cloned client, a non-default runtime flavour), or only for a particular ORDER of otherwise ordinary operations.\n\n"
 prior = ""
 if rnd != "1":
     import glob
@@ -39,6 +42,6 @@ For each change i (1..{n}) deliver, under {outd}/m<i>/ :
   - a demonstration: a self-contained Rust test file demo.rs together with a README.md saying exactly where to put it and how to run it (for example: "copy to tonic/tests/demo.rs (or tests/integration_tests/tests/demo.rs) and run `cargo test -p tonic --test demo --offline`"). The demonstration must FAIL with the change applied and PASS without it. It should use only public APIs of the tonic crates (and dev-dependencies the target crate already has).
   - meta.json : {{"property": "{pid}", "summary": "<one line>", "needs": "<what specific input / schedule / configuration / sequence is needed for it to manifest>", "files": [..], "demo_dest": "<path relative to the repository root where demo.rs must be copied, e.g. tests/integration_tests/tests/demo_{pid}_m1.rs>", "demo_cmd": "<exact cargo command that runs only the demo, e.g. cargo test -p integration-tests --test demo_{pid}_m1 --offline>", "tests_run": ["<commands you ran and their result>"]}}
 
-{prior}Work one change at a time: edit, build, run existing tests, write demo, confirm demo fails with the change, `git apply -R`/`git checkout -- .` to confirm demo passes without it, save patch.diff, then reset the worktree (`git checkout -- . && git clean -fd -e target`) before the next change. Leave the worktree clean (no uncommitted changes other than target/) when you finish. Do not commit anything.
+{prior}{hint}Work one change at a time: edit, build, run existing tests, write demo, confirm demo fails with the change, `git apply -R`/`git checkout -- .` to confirm demo passes without it, save patch.diff, then reset the worktree (`git checkout -- . && git clean -fd -e target`) before the next change. Leave the worktree clean (no uncommitted changes other than target/) when you finish. Do not commit anything.
 
 Finish with a short report: for each change, one paragraph on what it breaks and what it needs to manifest, and the exact commands you used to confirm (b), (c) and the demo's fail/pass behaviour. If you could not confirm something, say so plainly.""")
